@@ -48,9 +48,11 @@ class Nullable:
         self.on_null_flags = set(on_null_flags)     # member names whose assignment counts as reporting (e.g. scn->status)
         self.problems = {}        # site -> list of messages
         self.sites = []
+        self.site_of = {}
         for c in walk(fn_body(fn)):
             if callee(c) in self.sources:
-                self.sites.append(self.loc(c))
+                self.site_of[c['id']] = 'site%d' % len(self.sites)
+                self.sites.append('site%d' % len(self.sites))
         self.iter_guard = 0
 
     def loc(self, n):
@@ -104,7 +106,7 @@ class Nullable:
             if lk is not None and is_ptr_type(lhs):
                 if callee(r) in self.sources:
                     st = dict(st)
-                    st[lk] = (MAYBE, self.loc(r), False)
+                    st[lk] = (MAYBE, self.site_of.get(r['id'], '?'), False)
                     return st
                 rk = lkey(r)
                 st = dict(st)
@@ -164,7 +166,7 @@ class Nullable:
                     lk = 'v:' + n.get('name', '?') + ':' + n['id']
                     st = dict(st)
                     if callee(r) in self.sources:
-                        st[lk] = (MAYBE, self.loc(r), False)
+                        st[lk] = (MAYBE, self.site_of.get(r['id'], '?'), False)
                     else:
                         rk = lkey(r)
                         if rk is not None and rk in st:
